@@ -124,6 +124,10 @@ class World(object):
         else:
             self.kra = float(draw_values(rnd, 1, w["values"])[0])
         sup = supercell.ClusterSupercell(self.crys, self.S, spectator=self.spect)
+        # "shared supercell" worlds: every sampler of the run (system under test, fresh references, the per-site
+        # samplers of the vacancy walk, a decoy with other values) is built on ONE ClusterSupercell object, moving
+        # its vacancy with addvacancy() -- the way a kinetic Monte Carlo driver would use the class
+        self.shared = supercell.ClusterSupercell(self.crys, self.S, spectator=self.spect) if w.get("shared_sup") else None
         self.nsites = sup.Nmobile * sup.size
         srnd = random.Random(w["sseed"])
         self.socc = np.array([srnd.choice((0, 1, 1)) for _ in range(sup.Nspec * sup.size)], dtype=int)
@@ -136,15 +140,25 @@ class World(object):
                            np.sum(np.abs(self.tsvalues)) + np.sum(np.abs(self.kra)) + 1.0)
         self.exact = w["values"] == "dyadic"
 
-    def sampler(self, vacsite=None):
-        """A brand-new sampler through the public constructors."""
-        sup = supercell.ClusterSupercell(self.crys, self.S, spectator=self.spect)
+    def sampler(self, vacsite=None, decoy=False, private=False):
+        """A brand-new sampler through the public constructors. decoy=True: a different sampler (other
+        interaction values, other spectator occupation, vacancy elsewhere) that a caller builds on the same
+        supercell object in between; it must leave no trace in samplers built afterwards."""
+        sup = self.shared if (self.shared is not None and not private) else \
+            supercell.ClusterSupercell(self.crys, self.S, spectator=self.spect)
+        socc, ev, tsv, kra = self.socc, self.evalues, self.tsvalues, self.kra
         if self.vac:
-            sup.addvacancy(self.vacsite if vacsite is None else vacsite)
+            v = self.vacsite if vacsite is None else vacsite
+            if decoy:
+                v = self.jumping[(self.jumping.index(v) + 1) % len(self.jumping)]
+            sup.addvacancy(v)
+        if decoy:
+            socc, ev, tsv = 1 - self.socc, self.evalues[::-1] + 1.0, self.tsvalues[::-1] - 0.5
+            kra = (self.kra[::-1] + 0.25) if isinstance(self.kra, np.ndarray) else self.kra + 0.25
         if self.w["jumps"]:
-            return cluster.MonteCarloSampler(sup, self.socc, self.ce, self.evalues, self.chem, self.jn,
-                                             KRAvalues=self.kra, TSclusters=self.ts, TSvalues=self.tsvalues)
-        return cluster.MonteCarloSampler(sup, self.socc, self.ce, self.evalues)
+            return cluster.MonteCarloSampler(sup, socc, self.ce, ev, self.chem, self.jn,
+                                             KRAvalues=kra, TSclusters=self.ts, TSvalues=tsv)
+        return cluster.MonteCarloSampler(sup, socc, self.ce, ev)
 
     def close(self, a, b):
         if self.exact:
@@ -199,8 +213,16 @@ class Run(RunBase):
         self.w = world
         self.W = World(world)
         self.n = self.W.nsites
-        self.tmpl = self.W.sampler()          # never started; shallow copies serve as fresh references
-        self.mc = copy.deepcopy(self.tmpl)    # system under test
+        if self.W.shared is not None:
+            # the system under test is constructed on a supercell object on which a different sampler was
+            # constructed before; the fresh references come from a supercell object of their own
+            self.W.sampler(decoy=True)
+            self.mc = self.W.sampler()
+            self.tmpl = self.W.sampler(private=True)
+            self.faults["sampler-built-on-shared-supercell"] += 1
+        else:
+            self.tmpl = self.W.sampler()          # never started; shallow copies serve as fresh references
+            self.mc = copy.deepcopy(self.tmpl)    # system under test
         self.vacsite = self.W.vacsite
         self.occ = None                       # the caller's array (aliased by the sampler)
         self.mocc = None                      # model occupation (list)
@@ -641,6 +663,10 @@ class Run(RunBase):
             if i != self.vacsite:
                 self.fail("forbidden-listed", "vacancy at {} but transition {}->{} reported".format(self.vacsite, i, j))
             if j not in self.samplers:
+                if self.W.shared is not None:
+                    if (index + j) % 2:
+                        self.W.sampler(vacsite=j, decoy=True)
+                    self.faults["sampler-built-on-shared-supercell"] += 1
                 self.samplers[j] = self.W.sampler(vacsite=j)
                 self.probes["vacancy-sampler-built"] += 1
             occ2 = list(self.mocc)
@@ -895,6 +921,7 @@ class Engine(object):
                  "vacsite": rng.randrange(64), "jumps": jumps, "kra": rng.choice(("scalar", "list")),
                  "ts": jumps and rng.random() < 0.6, "values": rng.choice(("dyadic", "dyadic", "normal")),
                  "vseed": rng.randrange(1 << 30), "sseed": rng.randrange(1 << 30)}
+            w["shared_sup"] = rng.random() < 0.3
             w["class"] = "{}/{}/c{}o{}{}{}{}".format(c, s, cutoff, order, "/vac" if vac else "",
                                                      "/jn" if jumps else "", "/ts" if w["ts"] else "")
             return w
